@@ -69,6 +69,16 @@ def plan(tier, seed):
     return specs
 
 
+def _handler_for(data):
+    """ERR_LOG handlers: one returning nothing, one returning something true (a
+    running count, the error itself): what a handler returns is its own business."""
+    return _noop if len(data) % 2 else _echo
+
+
+def _echo(err):
+    return err or True
+
+
 def _noop(err):
     return None
 
@@ -77,7 +87,7 @@ def judge(data: bytes, opts, bursts=None, seekable=False, grow=None):
     """-> (viol list, nitems, truncated?)"""
     ts = S.TrackingStream(data, bursts, seekable=seekable)
     grow = list(grow or [])
-    rd = S.mk_reader(ts, opts, _noop if opts.get("quitonerror") == 1 else None)
+    rd = S.mk_reader(ts, opts, _handler_for(data) if opts.get("quitonerror") == 1 else None)
     prev_end = 0
     nitems = 0
     viol = []
@@ -129,7 +139,7 @@ def judge_socket(data, opts, chunks, bufsize, end):
     viol, n = [], 0
     try:
         try:
-            items, exc = S.read_all(sock, dict(opts, bufsize=bufsize), _noop if opts.get("quitonerror") == 1 else None,
+            items, exc = S.read_all(sock, dict(opts, bufsize=bufsize), _handler_for(data) if opts.get("quitonerror") == 1 else None,
                                     limit=4 * len(data) + 50)
         except S.HarnessHang as err:
             return [(f"{PROP}|hang", f"socket transport: {err}")], 0
